@@ -1,0 +1,37 @@
+//! Verification hook (only with `--cfg avt_verif`).
+
+use super::Parser;
+use std::fmt::Write;
+
+impl Parser {
+    /// Canonical rendering of the parser's private registers.
+    pub fn verif_state(&self, out: &mut String) {
+        let _ = write!(out, " P {} {} ", self.state as u8, self.cur_param);
+
+        match self.intermediate {
+            None => out.push('-'),
+            Some(c) => {
+                let _ = write!(out, "{}", c as u32);
+            }
+        }
+
+        let nondefault: Vec<usize> = (0..self.params.len())
+            .filter(|i| self.params[*i].cur_part != 0 || self.params[*i].parts.iter().any(|p| *p != 0))
+            .collect();
+
+        let _ = write!(out, " {} {}", self.params.len(), nondefault.len());
+
+        for i in nondefault {
+            let p = &self.params[i];
+            let _ = write!(out, " {}:{}:", i, p.cur_part);
+
+            for (k, part) in p.parts.iter().enumerate() {
+                if k > 0 {
+                    out.push('.');
+                }
+
+                let _ = write!(out, "{}", part);
+            }
+        }
+    }
+}
